@@ -38,6 +38,34 @@ def fmt_value(v):
     raise TypeError(v)
 
 
+def tla(v):
+    """Python value -> TLA+ expression text (for generated MC modules)."""
+    if isinstance(v, bool):
+        return "TRUE" if v else "FALSE"
+    if isinstance(v, int):
+        return str(v)
+    if isinstance(v, str):
+        return '"%s"' % v
+    if isinstance(v, (list, tuple)):
+        return "<<" + ", ".join(tla(x) for x in v) + ">>"
+    if isinstance(v, (set, frozenset)):
+        return "{" + ", ".join(sorted(tla(x) for x in v)) + "}"
+    if isinstance(v, dict):
+        return "[" + ", ".join(f"{k} |-> {tla(x)}" for k, x in v.items()) + "]"
+    if v is None:
+        return '"none"'
+    raise TypeError(v)
+
+
+def write_module(path, name, extends, defs):
+    """Generated module `name` EXTENDS `extends` with operator definitions defs (name -> TLA text)."""
+    with open(path, "w") as f:
+        f.write(f"---- MODULE {name} ----\nEXTENDS {extends}\n")
+        for k, v in defs.items():
+            f.write(f"{k} == {v}\n")
+        f.write("====\n")
+
+
 def write_cfg(path, spec="Spec", constants=None, invariants=(), properties=(), constraints=(),
               action_constraints=(), view=None, deadlock=True, symmetry=None, postcondition=None,
               init=None, next_=None, overrides=None, alias=None):
@@ -87,7 +115,7 @@ def run(module, cfg_path, workers=4, timeout=600, simulate=None, depth=None, tag
     meta = os.path.join(WORK, "meta_" + tag)
     shutil.rmtree(meta, ignore_errors=True)
     os.makedirs(meta, exist_ok=True)
-    jopts = [f"-Xmx{heap}", "-XX:+UseParallelGC"]
+    jopts = [f"-Xmx{heap}", "-XX:+UseParallelGC", f"-DTLA-Library={SPEC}"]
     if queue_dfs:
         jopts += ["-Xss1g", "-Dtlc2.tool.queue.IStateQueue=StateDeque"]
     cmd = ["timeout", str(timeout), "java"] + jopts + ["-cp", _classpath(), "tlc2.TLC",
